@@ -487,6 +487,9 @@ func c09files(format string, thorough bool, fn func(File)) {
 			return
 		}
 		fn(File{Format: format, Items: items, Layout: l1})
+		if format == "jsonline" && len(items) <= 2 {
+			fn(File{Format: format, Items: items, Layout: Layout{FinalNL: true, JSON: "lines-omit"}})
+		}
 	}
 	for _, a := range full {
 		emit([]Item{a})
